@@ -9,18 +9,15 @@
 //! consumes exactly len bytes, hickory decodes the bytes, every section is a prefix of the
 //! original one (EDNS / TSIG: unchanged or dropped), TC = original TC || something dropped.
 
-use std::net::SocketAddr;
 use std::str::FromStr;
 use std::sync::Arc;
 
-use futures_util::StreamExt;
-use hickory_net::{runtime::TokioRuntimeProvider, runtime::TokioTime, xfer::Protocol, BufDnsStreamHandle};
+use hickory_net::xfer::Protocol;
 use hickory_proto::op::{Edns, Message, MessageType, OpCode, Query};
 use hickory_proto::rr::rdata::tsig::TsigAlgorithm;
 use hickory_proto::rr::rdata::{A, MX, NS, SOA, TSIG, TXT};
 use hickory_proto::rr::{Name, RData, Record, RecordType};
 use hickory_proto::serialize::binary::{BinEncodable, BinEncoder};
-use hickory_server::server::{Request, RequestHandler, ResponseHandle};
 use hickory_server::store::in_memory::InMemoryZoneHandler;
 use hickory_server::zone_handler::{AxfrPolicy, Catalog, ZoneType};
 use serde_json::{json, Value};
@@ -273,29 +270,49 @@ fn run_case(case: &Case, limit: u16, alpha: &[Record], l: &mut Local) {
 
 // ------------------------------------------------------------------------------------------
 // server path
+//
+// Differential oracle: the same request bytes are served twice by the real Catalog, once over
+// TCP (limit 65,535: the complete response) and once over UDP. The UDP response must respect
+// max(512, advertised payload), be well-formed for the independent walker, have every section a
+// prefix of the TCP response's section, and TC set iff something was dropped.
 
 #[derive(Clone, Debug)]
-struct SrvCase {
-    nrec: usize,   // records in the RRset
-    big: bool,     // 255-byte TXT strings instead of A
-    payload: i32,  // -1 = no EDNS
-    tcp: bool,
+struct SrvZone {
+    nrec: usize,  // records in the RRset at r.z.
+    big: bool,    // 255-byte TXT strings instead of A
+    nns: usize,   // extra in-zone NS with glue at the apex
+    signed: bool, // NSEC-signed with a fixed Ed25519 key
 }
 
-fn srv_json(c: &SrvCase) -> Value {
-    json!({"server": true, "nrec": c.nrec, "big": c.big, "payload": c.payload, "tcp": c.tcp})
+#[derive(Clone, Debug)]
+struct SrvQuery {
+    name: &'static str,
+    qtype: RecordType,
+    dnssec_ok: bool,
 }
 
-fn build_catalog(c: &SrvCase) -> Catalog {
+fn build_catalog(z: &SrvZone) -> Catalog {
+    use hickory_proto::dnssec::{crypto::Ed25519SigningKey, rdata::DNSKEY, DnssecSigner, SigningKey};
+    use hickory_server::dnssec::NxProofKind;
     let origin = n("z.");
-    let mut zone = InMemoryZoneHandler::<TokioRuntimeProvider>::empty(origin.clone(), ZoneType::Primary, AxfrPolicy::Deny, None);
+    let mut zone = InMemoryZoneHandler::<vsim::SimProvider>::empty(
+        origin.clone(),
+        ZoneType::Primary,
+        AxfrPolicy::Deny,
+        if z.signed { Some(NxProofKind::Nsec) } else { None },
+    );
     zone.upsert_mut(
         Record::from_rdata(origin.clone(), 300, RData::SOA(SOA::new(n("ns.o."), n("h.o."), 1, 1, 1, 1, 300))),
         1,
     );
     zone.upsert_mut(Record::from_rdata(origin.clone(), 300, RData::NS(NS(n("ns.o.")))), 1);
-    for i in 0..c.nrec {
-        let r = if c.big {
+    for i in 0..z.nns {
+        let nsn = n(&format!("ns{i}.z."));
+        zone.upsert_mut(Record::from_rdata(origin.clone(), 300, RData::NS(NS(nsn.clone()))), 1);
+        zone.upsert_mut(Record::from_rdata(nsn, 300, RData::A(A::new(10, 9, 0, i as u8))), 1);
+    }
+    for i in 0..z.nrec {
+        let r = if z.big {
             let mut s = format!("{i:05}");
             s.push_str(&"t".repeat(250));
             Record::from_rdata(n("r.z."), 300, RData::TXT(TXT::new(vec![s])))
@@ -304,109 +321,247 @@ fn build_catalog(c: &SrvCase) -> Catalog {
         };
         zone.upsert_mut(r, 1);
     }
+    zone.upsert_mut(Record::from_rdata(n("*.w.z."), 300, RData::A(A::new(10, 2, 0, 1))), 1);
+    if z.signed {
+        let der = rustls_pki_types::PrivatePkcs8KeyDer::from(include_bytes!("../../../../keys/ed00.pk8").to_vec());
+        let k: Box<dyn SigningKey> = Box::new(Ed25519SigningKey::from_pkcs8(&der).unwrap());
+        let pk = k.to_public_key().unwrap();
+        zone.add_zone_signing_key_mut(DnssecSigner::new(
+            DNSKEY::from_key(&pk),
+            k,
+            origin.clone(),
+            std::time::Duration::from_secs(3600),
+        ))
+        .unwrap();
+        zone.secure_zone_mut().unwrap();
+    }
     let mut catalog = Catalog::new();
     catalog.upsert(origin.into(), vec![Arc::new(zone)]);
     catalog
 }
 
-fn run_srv_case(c: &SrvCase, rt: &tokio::runtime::Runtime, l: &mut Local) {
-    l.eval();
-    let src: SocketAddr = "192.0.2.1:5353".parse().unwrap();
-    let proto = if c.tcp { Protocol::Tcp } else { Protocol::Udp };
-    let qtype = if c.big { RecordType::TXT } else { RecordType::A };
-    let mut q = Message::new(7, MessageType::Query, OpCode::Query);
-    q.add_query(Query::new(n("r.z."), qtype));
-    if c.payload >= 0 {
+fn request_bytes(q: &SrvQuery, payload: i32) -> Vec<u8> {
+    let mut m = Message::new(7, MessageType::Query, OpCode::Query);
+    m.add_query(Query::new(n(q.name), q.qtype));
+    if payload >= 0 {
         let mut e = Edns::new();
-        e.set_max_payload(c.payload as u16);
-        q.set_edns(e);
-        // set_max_payload clamps to >= 512; patch the class field for the small values below
+        e.set_max_payload(payload.max(512) as u16);
+        e.set_dnssec_ok(q.dnssec_ok);
+        m.set_edns(e);
     }
-    let mut qbytes = q.to_vec().unwrap();
-    if c.payload >= 0 && c.payload < 512 {
-        // OPT is the last record: name(1) type(2) class(2) ttl(4) rdlen(2) => class at len-8
-        let p = qbytes.len() - 8;
-        qbytes[p..p + 2].copy_from_slice(&(c.payload as u16).to_be_bytes());
+    let mut b = m.to_vec().unwrap();
+    if (0..512).contains(&payload) {
+        // OPT is the last record: root name(1) type(2) class(2) ttl(4) rdlen(2): class at len-8
+        let p = b.len() - 8;
+        b[p..p + 2].copy_from_slice(&(payload as u16).to_be_bytes());
     }
-    let res = catch(|| {
-        rt.block_on(async {
-            let catalog = build_catalog(c);
-            let (handle, mut rx) = BufDnsStreamHandle::new(src);
-            let req = Request::from_bytes(qbytes.clone(), src, proto).unwrap();
-            catalog.handle_request::<_, TokioTime>(&req, ResponseHandle::new(src, handle, proto)).await;
-            drop(catalog);
-            let mut out = vec![];
-            while let Some(m) = rx.next().await {
-                out.push(m.into_parts().0);
+    b
+}
+
+fn srv_json(z: &SrvZone, q: &SrvQuery, payload: i32) -> Value {
+    json!({"server": true, "nrec": z.nrec, "big": z.big, "nns": z.nns, "signed": z.signed,
+           "qname": q.name, "qtype": u16::from(q.qtype), "do": q.dnssec_ok, "payload": payload})
+}
+
+fn one_response(rt: &tokio::runtime::Runtime, cat: &Catalog, req: &[u8], proto: Protocol) -> Result<Vec<u8>, String> {
+    match catch(|| rt.block_on(vsim::serve(cat, req, proto))) {
+        Err(p) => Err(format!("panic:{}", vcore::short_loc(&p.loc))),
+        Ok(None) => Err("request-unparsable".into()),
+        Ok(Some(mut v)) => {
+            if v.len() == 1 {
+                Ok(v.pop().unwrap())
+            } else {
+                Err(format!("response-count:{}", v.len()))
             }
-            out
-        })
-    });
-    let out = match res {
-        Err(p) => {
-            l.violation(&format!("server-panic:{}", vcore::short_loc(&p.loc)), &p.msg, || srv_json(c));
-            return;
         }
-        Ok(o) => o,
-    };
-    if out.len() != 1 {
-        l.violation("server-response-count", &format!("{} responses", out.len()), || srv_json(c));
-        return;
     }
-    let bytes = &out[0];
-    let limit = if c.tcp { 65535 } else { (c.payload.max(512)) as usize };
-    let wit = || {
-        let mut j = srv_json(c);
-        j["response_len"] = json!(bytes.len());
-        j["response_head"] = json!(hex::enc(&bytes[..bytes.len().min(64)]));
+}
+
+fn well_formed(bytes: &[u8]) -> Result<(vref::wire::Walk, Message), (String, String)> {
+    let w = vref::wire::walk(bytes).map_err(|e| ("server-walker-rejects".to_string(), format!("{e:?}")))?;
+    if w.consumed != bytes.len() {
+        return Err((
+            "server-leftover-bytes".into(),
+            format!("{} bytes sent, sections end at {}", bytes.len(), w.consumed),
+        ));
+    }
+    let m = Message::from_vec(bytes).map_err(|e| ("server-undecodable".to_string(), e.to_string()))?;
+    Ok((w, m))
+}
+
+/// Judge one (zone, query, payload): UDP response against the TCP response to the same bytes.
+fn run_srv_case(z: &SrvZone, cat: &Catalog, q: &SrvQuery, payload: i32, rt: &tokio::runtime::Runtime, l: &mut Local) {
+    l.eval();
+    let req = request_bytes(q, payload);
+    let wit = |extra: Value| {
+        let mut j = srv_json(z, q, payload);
+        j["detail"] = extra;
         j
     };
+    let full = match one_response(rt, cat, &req, Protocol::Tcp) {
+        Ok(b) => b,
+        Err(k) => {
+            l.violation(&format!("server-{k}:tcp"), "no single TCP response", || wit(json!(null)));
+            return;
+        }
+    };
+    let udp = match one_response(rt, cat, &req, Protocol::Udp) {
+        Ok(b) => b,
+        Err(k) => {
+            l.violation(&format!("server-{k}:udp"), "no single UDP response", || wit(json!(null)));
+            return;
+        }
+    };
+    if full.len() > 65535 {
+        l.violation("server-over-limit:tcp", &format!("{} bytes over TCP", full.len()), || wit(json!(null)));
+        return;
+    }
+    let limit = payload.max(512) as usize;
+    if udp.len() > limit {
+        l.violation(
+            "server-over-limit:udp",
+            &format!("{} bytes sent, limit {}", udp.len(), limit),
+            || wit(json!({"udp_len": udp.len()})),
+        );
+        return;
+    }
+    let (_fw, fm) = match well_formed(&full) {
+        Ok(x) => x,
+        Err((k, what)) => {
+            l.violation(&format!("{k}:tcp"), &what, || wit(json!({"head": hex::enc(&full[..full.len().min(48)])})));
+            return;
+        }
+    };
+    let (_uw, um) = match well_formed(&udp) {
+        Ok(x) => x,
+        Err((k, what)) => {
+            l.violation(&k, &what, || wit(json!({"udp_len": udp.len(), "head": hex::enc(&udp[..udp.len().min(48)])})));
+            return;
+        }
+    };
+    if um.metadata.id != 7 || um.queries != fm.queries {
+        l.violation("server-question-or-id-changed", "UDP and TCP responses differ in id/question", || wit(json!(null)));
+        return;
+    }
+    for (name, u, f) in [
+        ("answer", &um.answers, &fm.answers),
+        ("authority", &um.authorities, &fm.authorities),
+        ("additional", &um.additionals, &fm.additionals),
+    ] {
+        if !is_prefix(u, f) {
+            l.violation(
+                &format!("server-section-not-prefix:{name}"),
+                &format!("UDP {name} section is not a prefix of the complete (TCP) one"),
+                || wit(json!({"udp": u.len(), "tcp": f.len()})),
+            );
+            return;
+        }
+    }
+    let edns_dropped = match (&fm.edns, &um.edns) {
+        (None, None) => false,
+        (Some(_), None) => true,
+        (Some(a), Some(b)) if a == b => false,
+        _ => {
+            l.violation("server-edns-changed", "OPT differs between UDP and TCP responses", || wit(json!(null)));
+            return;
+        }
+    };
+    let dropped = um.answers.len() < fm.answers.len()
+        || um.authorities.len() < fm.authorities.len()
+        || um.additionals.len() < fm.additionals.len()
+        || edns_dropped;
+    let want_tc = fm.metadata.truncation || dropped;
+    if um.metadata.truncation != want_tc {
+        l.violation(
+            if dropped { "server-tc-not-set" } else { "server-tc-set-without-drop" },
+            &format!("TC={} expected {}", um.metadata.truncation, want_tc),
+            || wit(json!({"udp_len": udp.len(), "tcp_len": full.len()})),
+        );
+        return;
+    }
+    if dropped {
+        l.outcome("server-truncated");
+        l.nontrivial(fnv64(&udp) ^ (payload as u64).wrapping_mul(0x9e3779b97f4a7c15));
+    } else {
+        l.outcome("server-complete");
+    }
+}
+
+/// Responses beyond 64 KiB cannot be compared with a complete one: count-based oracle.
+fn run_srv_huge(z: &SrvZone, cat: &Catalog, tcp: bool, rt: &tokio::runtime::Runtime, l: &mut Local) {
+    l.eval();
+    let q = SrvQuery { name: "r.z.", qtype: RecordType::TXT, dnssec_ok: false };
+    let req = request_bytes(&q, 4096);
+    let proto = if tcp { Protocol::Tcp } else { Protocol::Udp };
+    let wit = || {
+        let mut j = srv_json(z, &q, 4096);
+        j["huge"] = json!(true);
+        j["tcp"] = json!(tcp);
+        j
+    };
+    let bytes = match one_response(rt, cat, &req, proto) {
+        Ok(b) => b,
+        Err(k) => {
+            l.violation(&format!("server-{k}:huge"), "no single response", wit);
+            return;
+        }
+    };
+    let limit = if tcp { 65535 } else { 4096 };
     if bytes.len() > limit {
         l.violation(
-            if c.tcp { "server-over-limit:tcp" } else { "server-over-limit:udp" },
+            if tcp { "server-over-limit:tcp" } else { "server-over-limit:udp" },
             &format!("{} bytes sent, limit {}", bytes.len(), limit),
             wit,
         );
         return;
     }
-    match vref::wire::walk(bytes) {
-        Err(e) => {
-            l.violation("server-walker-rejects", &format!("{e:?}"), wit);
-            return;
-        }
-        Ok(w) => {
-            if w.consumed != bytes.len() {
-                l.violation(
-                    "server-leftover-bytes",
-                    &format!("{} bytes sent, sections end at {}", bytes.len(), w.consumed),
-                    wit,
-                );
-                return;
-            }
-            if Message::from_vec(bytes).is_err() {
-                l.violation("server-undecodable", "hickory cannot decode the server's response", wit);
-                return;
-            }
-            // the OPT record is a record too: if the request carried EDNS and the response's OPT
-            // did not fit, something was dropped and TC is due
-            let opt_present = w.additionals.iter().any(|r| r.rtype == 41);
-            let all = w.answers.len() == c.nrec && (c.payload < 0 || opt_present);
-            if !all && !w.header.tc() {
-                l.violation("server-tc-not-set", &format!("{} of {} answers, TC clear", w.answers.len(), c.nrec), wit);
-                return;
-            }
-            if all && w.header.tc() {
-                l.violation("server-tc-set-without-drop", "all answers present but TC set", wit);
-                return;
-            }
-            if all {
-                l.outcome("server-complete");
+    match well_formed(&bytes) {
+        Err((k, what)) => l.violation(&k, &what, wit),
+        Ok((w, _)) => {
+            if w.answers.len() >= z.nrec || !w.header.tc() {
+                l.violation("server-tc-not-set", "response above 64 KiB neither truncated nor TC", wit);
             } else {
-                l.outcome("server-truncated");
-                l.nontrivial(fnv64(format!("{c:?}").as_bytes()));
+                l.outcome("server-truncated-huge");
+                l.nontrivial(fnv64(&bytes));
             }
         }
     }
+}
+
+fn srv_queries(z: &SrvZone) -> Vec<SrvQuery> {
+    let mut v = vec![];
+    let dos: &[bool] = if z.signed { &[false, true] } else { &[false] };
+    for &d in dos {
+        v.push(SrvQuery { name: "r.z.", qtype: if z.big { RecordType::TXT } else { RecordType::A }, dnssec_ok: d });
+        v.push(SrvQuery { name: "z.", qtype: RecordType::NS, dnssec_ok: d });
+        v.push(SrvQuery { name: "r.z.", qtype: RecordType::MX, dnssec_ok: d }); // NODATA
+        v.push(SrvQuery { name: "x.r.z.", qtype: RecordType::A, dnssec_ok: d }); // NXDOMAIN
+        v.push(SrvQuery { name: "q.w.z.", qtype: RecordType::A, dnssec_ok: d }); // wildcard
+        if z.signed {
+            v.push(SrvQuery { name: "z.", qtype: RecordType::DNSKEY, dnssec_ok: d });
+        }
+    }
+    v
+}
+
+fn srv_payloads(full_len: usize) -> Vec<i32> {
+    let mut v: Vec<i32> = vec![-1, 0, 511];
+    let top = (full_len + 2).min(65535);
+    let dense_to = top.min(1500);
+    v.extend((512..=dense_to as i32).into_iter());
+    let mut p = dense_to + 53;
+    while p < top {
+        v.push(p as i32);
+        p += 53;
+    }
+    for x in [full_len.saturating_sub(1), full_len, full_len + 1, 1232, 4096, 65535] {
+        if x >= 512 && x <= 65535 {
+            v.push(x as i32);
+        }
+    }
+    v.sort();
+    v.dedup();
+    v
 }
 
 fn main() {
@@ -415,16 +570,27 @@ fn main() {
     let alpha = alphabet(thorough);
 
     if let Some((_key, case)) = ctx.replay_case() {
-        let rt = tokio::runtime::Builder::new_current_thread().enable_time().build().unwrap();
+        let rt = vsim::rt();
         ctx.with_local(|l| {
             if case["server"].as_bool() == Some(true) {
-                let c = SrvCase {
+                let z = SrvZone {
                     nrec: case["nrec"].as_u64().unwrap() as usize,
                     big: case["big"].as_bool().unwrap(),
-                    payload: case["payload"].as_i64().unwrap() as i32,
-                    tcp: case["tcp"].as_bool().unwrap(),
+                    nns: case["nns"].as_u64().unwrap_or(0) as usize,
+                    signed: case["signed"].as_bool().unwrap_or(false),
                 };
-                run_srv_case(&c, &rt, l);
+                let cat = build_catalog(&z);
+                if case["huge"].as_bool() == Some(true) {
+                    run_srv_huge(&z, &cat, case["tcp"].as_bool().unwrap_or(false), &rt, l);
+                } else {
+                    let qname: &'static str = Box::leak(case["qname"].as_str().unwrap().to_string().into_boxed_str());
+                    let q = SrvQuery {
+                        name: qname,
+                        qtype: RecordType::from(case["qtype"].as_u64().unwrap() as u16),
+                        dnssec_ok: case["do"].as_bool().unwrap_or(false),
+                    };
+                    run_srv_case(&z, &cat, &q, case["payload"].as_i64().unwrap() as i32, &rt, l);
+                }
             } else {
                 let (c, limit) = Case::from_json(&case);
                 let alpha = alphabet(true);
@@ -479,33 +645,54 @@ fn main() {
     });
 
     // (b) server path
-    let mut cases = vec![];
-    let nrecs: Vec<usize> = if thorough { (1..=120).collect() } else { (1..=40).collect() };
-    let payloads: [i32; 9] = [-1, 0, 511, 512, 513, 1232, 1233, 4096, 65535];
+    let mut zones = vec![];
+    let nrecs: Vec<usize> = if thorough { (1..=60).collect() } else { vec![1, 2, 3, 5, 8, 13, 20, 27, 28, 29, 30, 31, 32, 40] };
     for &nrec in &nrecs {
-        for &payload in &payloads {
-            for tcp in [false, true] {
-                cases.push(SrvCase { nrec, big: false, payload, tcp });
-                if nrec <= 20 || thorough {
-                    cases.push(SrvCase { nrec, big: true, payload, tcp });
+        for signed in [false, true] {
+            zones.push(SrvZone { nrec, big: false, nns: if nrec % 2 == 0 { 3 } else { 0 }, signed });
+        }
+    }
+    for nrec in if thorough { vec![1, 2, 3, 4, 5, 8, 16, 17, 40] } else { vec![1, 2, 4, 5] } {
+        for signed in [false, true] {
+            zones.push(SrvZone { nrec, big: true, nns: 12, signed });
+        }
+    }
+    ctx.set("server_zones", json!(zones.len()));
+    ctx.par_run_init(
+        zones.len() as u64,
+        1,
+        |_| vsim::rt(),
+        |i, l, rt| {
+            let z = &zones[i as usize];
+            let cat = build_catalog(z);
+            for q in srv_queries(z) {
+                // length of the complete response decides the payload sweep: EVERY payload value
+                // from 512 to len+2 (<= 1500 densely, then stepped), plus the boundary values
+                let full_len = match one_response(rt, &cat, &request_bytes(&q, 65535), Protocol::Tcp) {
+                    Ok(b) => b.len(),
+                    Err(_) => 512,
+                };
+                for p in srv_payloads(full_len) {
+                    run_srv_case(z, &cat, &q, p, rt, l);
+                }
+                if i % 7 == 0 && q.dnssec_ok {
+                    l.sample(srv_json(z, &q, full_len as i32 - 1));
                 }
             }
-        }
-    }
-    // responses above 64 KiB over TCP
-    for nrec in [250usize, 256, 300] {
-        for tcp in [false, true] {
-            cases.push(SrvCase { nrec, big: true, payload: 4096, tcp });
-        }
-    }
-    ctx.set("server_cases", json!(cases.len()));
-    ctx.par_run_init(
-        cases.len() as u64,
-        4,
-        |_| tokio::runtime::Builder::new_current_thread().enable_time().build().unwrap(),
-        |i, l, rt| run_srv_case(&cases[i as usize], rt, l),
+        },
     );
-    ctx.with_local(|l| l.sample(srv_json(&cases[cases.len() / 2])));
+    // responses above 64 KiB
+    let huge: Vec<SrvZone> = [250usize, 256, 300].iter().map(|&nrec| SrvZone { nrec, big: true, nns: 0, signed: false }).collect();
+    ctx.par_run_init(
+        huge.len() as u64 * 2,
+        1,
+        |_| vsim::rt(),
+        |i, l, rt| {
+            let z = &huge[(i / 2) as usize];
+            let cat = build_catalog(z);
+            run_srv_huge(z, &cat, i % 2 == 1, rt, l);
+        },
+    );
 
     if ctx.outcome_count("truncated") == 0 || ctx.outcome_count("server-truncated") == 0 {
         ctx.machinery_failure("vacuous run: no truncation was exercised");
